@@ -50,8 +50,26 @@ SRC = {
 }
 
 
-def write_mod(root, name, version):
-    open(os.path.join(root, name + ".py"), "w").write(SRC[name].format(v=version, pad="# pad\n" * version))
+_OLD = 1_000_000_000   # 2001: sources carry restored, old timestamps (as after unpacking an archive)
+
+
+def write_mod(root, name, version, pads=None):
+    """Write revision `version` (a single digit) with `pads` padding lines (default: `version`,
+    so that a plain edit changes the size) and a timestamp that identifies the revision."""
+    path = os.path.join(root, name + ".py")
+    open(path, "w").write(SRC[name].format(v=version, pad="# pad\n" * (version if pads is None else pads)))
+    os.utime(path, (_OLD + 100 * version, _OLD + 100 * version))
+
+
+def apply_edit(root, e, versions, pads):
+    """e in 1..3: new revision of module e with a different size; 4..6: new revision of module
+    e-3 with the *same* size (only the restored timestamp tells the revisions apart)."""
+    m = MODS[(e - 1) % 3]
+    versions[m] += 1
+    if e <= 3:
+        pads[m] += 1
+    write_mod(root, m, versions[m], pads[m])
+    return m, "size changes" if e <= 3 else "same size, older-than-install timestamp"
 
 
 def fresh_forest():
@@ -86,15 +104,15 @@ def instances(tier, seed):
     return out
 
 
-BOUNDS = dict(run_environment="every run is additionally normal / with bytecode writing off (python -B) / with JAXTYPING_DISABLE=1 (solver-branched)", history="2 runs over one cache directory (thorough: 3 runs for a seeded subset, within the time budget); run 1 fixed per instance (8 hook sets x {typeguard, beartype, None, no hook} x 7 import orders); every later run: solver-branched choice of hook set, checker, import order and an optional source edit of one module",
+BOUNDS = dict(run_environment="every run is additionally normal / with bytecode writing off (python -B) / with JAXTYPING_DISABLE=1 (solver-branched)", history="2 runs over one cache directory (thorough: 3 runs for a seeded subset, within the time budget); run 1 fixed per instance (8 hook sets x {typeguard, beartype, None, no hook} x 7 import orders); every later run: solver-branched choice of hook set, checker, import order and an optional source edit of one module (size-changing, or same size with a different restored timestamp)",
               forest="wh (imports wp while being executed), wp, wq, wbad (imports wq, then raises ImportError), wsyn (does not compile)",
               tags="the three checker strings + None: pairwise distinct cache tags, distinct from CPython's")
 STUBS = ["a 'run' is simulated in-process: module table purged, hooks removed, importlib._bootstrap_external.cache_from_source reset to the pristine function (the state of a fresh interpreter); replays use real subprocesses"]
 ASSUMPTIONS = ["no value variables: histories are an enumerated finite family (the deciding code is importlib's file handling, executed for real)",
-               "source edits change the file size (edits within mtime granularity that keep the size are outside the claim)",
+               "a source edit either changes the file size or keeps it and carries a different (restored, old) timestamp; edits that keep both size and timestamp are outside the claim",
                "md5 collision-freeness for distinct checker strings", "crashes in the middle of writing a cache file are outside the claim"]
 REQUIRED_LABELS = {"tags-distinct", "right-code"}
-REQUIRED_WITNESS = {"cache-hit", "edited", "nested-import", "failed-import", "prefix-collision-5", "prefix-collision-8"}
+REQUIRED_WITNESS = {"cache-hit", "edited", "edited-same-size", "edited-size", "nested-import", "failed-import", "prefix-collision-5", "prefix-collision-8"}
 BUDGET_S = {"quick": 80, "thorough": 1200}
 
 
@@ -165,18 +183,18 @@ def scenario(inst, V):
     sys.dont_write_bytecode = False
     trace = []
     versions = {m: 1 for m in MODS}
+    pads = {m: 1 for m in MODS}
     try:
         h, c, o = inst["run1"]
         env1 = inst.get("env1", 0)   # 0 normal, 1 bytecode writing off, 2 JAXTYPING_DISABLE=1
         do_run(V, root, versions, HOOKSETS[h], CHECKERS[c], ORDERS[o], "run1", trace, nowrite=env1 == 1, disabled=env1 == 2)
         for r in range(2, inst["nruns"] + 1):
-            e = V.choose(f"edit{r}", 4)  # 0 = no edit; k = edit module k (wh / wp / wq)
+            e = V.choose(f"edit{r}", 7)  # 0 = no edit; 1..3 edit wh / wp / wq (size changes); 4..6 same-size edit
             if e:
-                m = MODS[e - 1]
-                versions[m] += 1
-                write_mod(root, m, versions[m])
+                m, how = apply_edit(root, e, versions, pads)
                 V.reach("edited")
-                trace.append(f"edit {m} -> VERSION {versions[m]}")
+                V.reach("edited-same-size" if e > 3 else "edited-size")
+                trace.append(f"edit {m} -> VERSION {versions[m]} ({how})")
             h = V.choose(f"h{r}", len(HOOKSETS))
             c = V.choose(f"c{r}", len(CHECKERS))
             if CHECKERS[c] == "nohook" and h:
@@ -284,6 +302,7 @@ def replay(inst, label, vals, info):
         return _inproc_replay(inst, label, vals, info)
     root = fresh_forest()
     versions = {m: 1 for m in MODS}
+    pads = {m: 1 for m in MODS}
     runs = [("run1", None) + tuple(inst["run1"]) + (inst.get("env1", 0),)]
     for r in range(2, inst["nruns"] + 1):
         if f"h{r}" in vals or f"o{r}" in vals or f"c{r}" in vals or f"edit{r}" in vals:
@@ -294,10 +313,8 @@ def replay(inst, label, vals, info):
     try:
         for tag, e, h, c, o, envk in runs:
             if e:
-                m = MODS[e - 1]
-                versions[m] += 1
-                write_mod(root, m, versions[m])
-                text.append(f"edit {m} -> VERSION {versions[m]}")
+                m, how = apply_edit(root, e, versions, pads)
+                text.append(f"edit {m} -> VERSION {versions[m]} ({how})")
             cfg = json.dumps([HOOKSETS[h], CHECKERS[c], ORDERS[o], envk])
             env = dict(os.environ)
             env.pop("PYTHONDONTWRITEBYTECODE", None)
